@@ -8,7 +8,7 @@
     default settings (no exception)."""
 import math
 from ..common import Run, Res, quiet_call, seed, close
-from ..sysmodel import (Trees, SIG_MID, SIG_DEEP, spec_from_forest, build, observe, resolve, g, PALETTES, refsolve, sgn, _r)
+from ..sysmodel import (Trees, SIG_MID, SIG_DEEP, spec_from_forest, build, observe, resolve, g, PALETTES, refsolve, sgn, _r, with_phases, PH2, pc_options, LOADS, PHASE_LIST_KINDS)
 from .. import phys
 
 PROP = "C03"
@@ -119,6 +119,8 @@ def check_case(case):
     fam = case["fam"]
     extra = heavy_letters(case["pal"]) if fam == "over" else None
     spec = spec_from_forest(case["f"], case["pal"], case["pol"], case["srs"], extra=extra)
+    if case.get("who"):
+        spec = with_phases(spec, PH2, {case["who"]: case["pc"]})
     if fam == "settings":
         outs = set()
         for vt, it in TOLS:
@@ -175,6 +177,13 @@ def gen_cases(tier):
         for n in ((3,) if tier == "quick" else (3, 4)):
             for f in deep.iter_forests(n):
                 yield dict(fam="settings", f=f, pal=pal, pol=-1 if n == 3 else 1, srs=0.0)
+        # with phases: one component active / loaded in the FIRST phase only, so the phases need different numbers of sweeps
+        for n in ((2,) if tier == "quick" else (2, 3)):
+            for f in mid.iter_forests(n):
+                sp = spec_from_forest(f, pal, 1, 0.37)
+                for c in sp["comps"][1:]:
+                    if c["k"] in LOADS or c["k"] in PHASE_LIST_KINDS:
+                        yield dict(fam="settings", f=f, pal=pal, pol=1, srs=0.37, who=c["n"], pc=pc_options(c, PH2, False)[1])
         for n in ((4, 5) if tier == "quick" else (5, 6, 7)):
             for f in chains(deep, n):
                 yield dict(fam="settings", f=f, pal=pal, pol=1, srs=0.37)
@@ -206,7 +215,7 @@ def main(tier):
         run.require(c in run.classes, "outcome class %s never observed" % c)
     run.require(run.stats["modest"] > 100, "liveness family empty")
     return run.finish(
-        rule="A: trees (mid alphabet n<=2/3, deep alphabet n=3/4, chains to depth 5/7) x 4 tolerance pairs x 7 maxiter values; "
+        rule="A: trees (mid alphabet n<=2/3, deep alphabet n=3/4, chains to depth 5/7; mid n=2/3 with two phases and one component configured for the first phase only) x 4 tolerance pairs x 7 maxiter values; "
              "B: every tree n<=3/4 over an overload alphabet (series elements with 2V/A, heavy I/P/R loads) x source rs in {0, 2V/A} x polarity; "
              "C: every tree of the mid alphabet n<=3/4 and deep n=5/6 that the reference solver puts in the modest-drop family. "
              "non-trivial: A = the settings produced >=2 different outcomes for the same tree, B = the overload made solve() raise, C = member of the modest-drop family.",
